@@ -329,7 +329,7 @@ pub fn op_strategy(p: &Profile) -> BoxedStrategy<Op> {
             .boxed(),
     );
     add(p.withdraw, (0u8..6).prop_map(|u| Op::Withdraw { u }).boxed());
-    add(p.transfer, (0u8..6, 0u8..9, st(), frac()).prop_map(|(u, to, st, frac)| Op::Transfer { u, to, st, frac }).boxed());
+    add(p.transfer, (0u8..6, prop_oneof![3 => 0u8..10, 1 => 10u8..60], st(), frac()).prop_map(|(u, to, st, frac)| Op::Transfer { u, to, st, frac }).boxed());
     add(p.send_sink, (0u8..6, st(), frac()).prop_map(|(u, st, frac)| Op::SendSink { u, st, frac }).boxed());
     add(
         p.allow,
@@ -343,7 +343,7 @@ pub fn op_strategy(p: &Profile) -> BoxedStrategy<Op> {
     );
     add(
         p.transfer_from,
-        (0u8..6, 0u8..6, 0u8..9, st(), frac())
+        (0u8..6, 0u8..6, prop_oneof![3 => 0u8..10, 1 => 10u8..60], st(), frac())
             .prop_map(|(owner, spender, to, st, frac)| Op::TransferFrom { owner, spender, to, st, frac })
             .boxed(),
     );
@@ -603,6 +603,33 @@ pub fn registry_scenario_strategy(p: &Profile, cfgs: BoxedStrategy<Cfg>) -> Boxe
         .boxed()
 }
 
+/// Structured generator: one holder spreads bSei over 31-50 fresh accounts (more than one 30-entry page of the
+/// AllAccounts / Holders enumerations), with reward rounds, claims and further operations in between.
+pub fn many_accounts_scenario_strategy(p: &Profile, cfgs: BoxedStrategy<Cfg>) -> BoxedStrategy<History> {
+    (
+        cfgs,
+        proptest::collection::vec(bond_strategy(p), 1..4),
+        31u8..50,
+        proptest::collection::vec(op_strategy(p), 0..10),
+        proptest::collection::vec((0u8..5, prop_oneof![Just(0u8), Just(1u8)], amt_strategy()), 1..4),
+    )
+        .prop_map(|(cfg, bonds, n, others, accruals)| {
+            let mut ops = vec![Op::Bond { u: 0, st: false, amt: Amt { class: 3, mant: 5000 } }, Op::Bond { u: 0, st: true, amt: Amt { class: 3, mant: 700 } }];
+            ops.extend(bonds);
+            for k in 0..n {
+                ops.push(Op::Transfer { u: 0, to: 10 + k, st: k % 5 == 4, frac: 300 });
+            }
+            for (v, coin, amt) in accruals {
+                ops.push(Op::Accrue { v, coin, amt });
+            }
+            ops.push(Op::UpdateIndex { by: 0 });
+            ops.extend(others);
+            ops.push(Op::UpdateIndex { by: 0 });
+            History { cfg, ops }
+        })
+        .boxed()
+}
+
 /// Structured generator: 3-5 registered validators, bonds, heavy slashing of one or two validators (uneven layout),
 /// optionally liquid coins on the hub (donation or a matured undelegation), then bonds of pool-relative sizes.
 pub fn uneven_bond_scenario_strategy(cfgs: BoxedStrategy<Cfg>) -> BoxedStrategy<History> {
@@ -747,7 +774,9 @@ impl Interp {
                 0 => SINK.to_string(),
                 1 => HUB.to_string(),
                 2 => REWARD.to_string(),
-                _ => KEEPER.to_string(),
+                3 => KEEPER.to_string(),
+                // many distinct fresh accounts: more than one page of the enumeration queries (30 per page)
+                k => format!("fresh{}", k),
             }
         }
     }
